@@ -21,6 +21,8 @@ pub struct Outcome {
     pub tags: Vec<&'static str>,
     /// number of individual implementation evaluations performed
     pub evals: usize,
+    /// events recorded for trace validation (TV leg), written to `<out>.trace`
+    pub trace: Vec<Value>,
 }
 impl Outcome {
     pub fn mismatch(&mut self, what: &str, expected: Value, actual: Value) {
@@ -51,7 +53,8 @@ fn replay(kind: &str, vecs: &str, out: &str, threads: usize) -> anyhow::Result<(
         .collect::<Result<_, _>>()?;
     let n = lines.len();
     let chunk = n.div_ceil(threads.max(1)).max(1);
-    let results: Vec<(Vec<Value>, std::collections::BTreeMap<String, usize>, usize, usize)> =
+    #[allow(clippy::type_complexity)]
+    let results: Vec<(Vec<Value>, std::collections::BTreeMap<String, usize>, usize, usize, Vec<Value>)> =
         std::thread::scope(|s| {
             let hs: Vec<_> = lines
                 .chunks(chunk)
@@ -62,6 +65,7 @@ fn replay(kind: &str, vecs: &str, out: &str, threads: usize) -> anyhow::Result<(
                         let mut tags = std::collections::BTreeMap::new();
                         let mut evals = 0usize;
                         let mut nontrivial = 0usize;
+                        let mut trace = Vec::new();
                         for (i, l) in ch.iter().enumerate() {
                             let idx = ci * chunk + i;
                             let v: Value = match serde_json::from_str(l) {
@@ -80,6 +84,7 @@ fn replay(kind: &str, vecs: &str, out: &str, threads: usize) -> anyhow::Result<(
                                 }
                             };
                             evals += o.evals;
+                            trace.extend(o.trace);
                             if !o.tags.is_empty() {
                                 nontrivial += 1;
                             }
@@ -90,7 +95,7 @@ fn replay(kind: &str, vecs: &str, out: &str, threads: usize) -> anyhow::Result<(
                                 mism.push(json!({"case": idx, "kind": kind, "vec": v, "mismatch": m}));
                             }
                         }
-                        (mism, tags, evals, nontrivial)
+                        (mism, tags, evals, nontrivial, trace)
                     })
                 })
                 .collect();
@@ -101,7 +106,13 @@ fn replay(kind: &str, vecs: &str, out: &str, threads: usize) -> anyhow::Result<(
     let mut evals = 0;
     let mut nontrivial = 0;
     let mut nm = 0;
-    for (m, t, e, nt) in results {
+    let mut tw = std::io::BufWriter::new(std::fs::File::create(format!("{out}.trace"))?);
+    let mut nev = 0usize;
+    for (m, t, e, nt, tr) in results {
+        for x in tr {
+            writeln!(tw, "{x}")?;
+            nev += 1;
+        }
         for x in m {
             writeln!(w, "{x}")?;
             nm += 1;
@@ -115,7 +126,7 @@ fn replay(kind: &str, vecs: &str, out: &str, threads: usize) -> anyhow::Result<(
     writeln!(
         w,
         "{}",
-        json!({"summary": {"vectors": n, "evaluations": evals, "nontrivial": nontrivial, "tags": tags, "mismatches": nm}})
+        json!({"summary": {"vectors": n, "evaluations": evals, "nontrivial": nontrivial, "tags": tags, "mismatches": nm, "trace_events": nev}})
     )?;
     Ok(())
 }
